@@ -8,12 +8,13 @@ import MirosModel.Hsm.DrillLemmas
 -/
 namespace Miros.Hsm
 
-theorem climbInit_spec (tgt outer : St) : ∀ (x : St) (tp : List St) (mx idx : Nat) (k : Ctx),
+theorem climbInit_spec (c : Chart) (hf : ∀ s, c.fall s = false) (tgt outer : St) :
+    ∀ (x : St) (tp : List St) (mx idx : Nat) (k : Ctx),
     x = tgt.drop idx → idx ≤ tgt.length → Buf tp tgt (idx + 1) → mx + 1 = tp.length → idx ≤ mx →
-    (∃ m tp' mx' k', climbInit outer x tp mx idx k = .done m tp' mx' k' ∧ m ≤ tgt.length ∧
+    (∃ m tp' mx' k', climbInit c outer x tp mx idx k = .done m tp' mx' k' ∧ m ≤ tgt.length ∧
         tgt.drop m = outer ∧ Buf tp' tgt (m + 1) ∧ mx' + 1 = tp'.length ∧
         actions k'.log = actions k.log ∧ (noExit k.log → noExit k'.log)) ∨
-    (∃ k', climbInit outer x tp mx idx k = .fail k' ∧
+    (∃ k', climbInit c outer x tp mx idx k = .fail k' ∧
         ∀ i, idx ≤ i → i ≤ tgt.length → tgt.drop i ≠ outer) := by
   intro x
   induction x with
@@ -42,7 +43,7 @@ theorem climbInit_spec (tgt outer : St) : ∀ (x : St) (tp : List St) (mx idx : 
       have hp : p = tgt.drop (idx + 1) := (drop_cons_tail hx.symm).symm
       have hb1 : Buf tp1 tgt (idx + 1 + 1) := hb.store hr hrest hp
       have hlt := drop_cons_lt hx.symm
-      simp only [hs]
+      simp only [hs, hf, Bool.false_eq_true, if_false]
       rcases ih tp1 mx1 (idx + 1) (probe (a :: p) k) hp (by omega) hb1 hmx1 hip1
         with ⟨m, tp', mx', k', h1, h2, h3, h4, h5, h6, h7⟩ | ⟨k', h1, h2⟩
       · exact Or.inl ⟨m, tp', mx', k', h1, h2, h3, h4, h5, by rw [h6]; simp,
@@ -53,7 +54,7 @@ theorem climbInit_spec (tgt outer : St) : ∀ (x : St) (tp : List St) (mx idx : 
         · subst hi; rw [← hx]; exact e
         · exact h2 i (by omega) hi2
 
-theorem initLoop_bad (c : Chart) (g : Cfg) (hg : g.initGuard = true) (fuel : Nat) (outer : St)
+theorem initLoop_bad (c : Chart) (hf : ∀ s, c.fall s = false) (g : Cfg) (hg : g.initGuard = true) (fuel : Nat) (outer : St)
     (tp : List St) (mx : Nat) (k : Ctx) (hmx : mx + 1 = tp.length)
     (hbad : ¬ (outer <:+ k.temp ∧ outer ≠ k.temp)) :
     ∃ l, initLoop c g (fuel + 1) outer tp mx k = .raise l := by
@@ -65,13 +66,13 @@ theorem initLoop_bad (c : Chart) (g : Cfg) (hg : g.initGuard = true) (fuel : Nat
       intro i hi
       have : i = 0 := by omega
       subst this; rw [rd_set_zero _ (by omega)]; rfl
-    rcases climbInit_spec k.temp outer k.temp (tp.set 0 k.temp) mx 0 k (by simp) (by omega) hb0
+    rcases climbInit_spec c hf k.temp outer k.temp (tp.set 0 k.temp) mx 0 k (by simp) (by omega) hb0
       (by simpa using hmx) (by omega)
       with ⟨m, tp', mx', k', h1, h2, h3, _⟩ | ⟨k', h1, _⟩
     · exact absurd ⟨suffix_iff_drop.mpr ⟨m, h2, h3⟩, Ne.symm e⟩ hbad
     · simp only [h1]; exact ⟨_, rfl⟩
 
-theorem initLoop_spec (c : Chart) (g : Cfg) (hg : g.initGuard = true)
+theorem initLoop_spec (c : Chart) (hf : ∀ s, c.fall s = false) (g : Cfg) (hg : g.initGuard = true)
     (hdepth : ∀ s t, c.init s = some t → t.length ≤ c.depth) :
     ∀ (fuel : Nat) (outer : St) (tp : List St) (mx : Nat) (k : Ctx),
       mx + 1 = tp.length → 1 ≤ fuel →
@@ -97,7 +98,7 @@ theorem initLoop_spec (c : Chart) (g : Cfg) (hg : g.initGuard = true)
       intro i hi
       have : i = 0 := by omega
       subst this; rw [rd_set_zero _ (by omega)]; rfl
-    rcases climbInit_spec tgt outer tgt (tp.set 0 tgt) mx 0 ⟨tgt, klog⟩ (by simp) (by omega) hb0
+    rcases climbInit_spec c hf tgt outer tgt (tp.set 0 tgt) mx 0 ⟨tgt, klog⟩ (by simp) (by omega) hb0
       (by simpa using hmx) (by omega)
       with ⟨m, tp1, mx1, k1, hc, c1, c2, c3, c4, c5, c6⟩ | ⟨k', hc, c1⟩
     · simp only [hc]
@@ -123,7 +124,7 @@ theorem initLoop_spec (c : Chart) (g : Cfg) (hg : g.initGuard = true)
         rw [callInit_some htgt hi]
         simp only [if_true]
         have hlen := hdepth tgt tgt' hi
-        have hf : c.depth + 2 ≤ fuel + 1 + tgt.length ∧ 2 ≤ fuel + 1 := by
+        have hfu : c.depth + 2 ≤ fuel + 1 + tgt.length ∧ 2 ≤ fuel + 1 := by
           rcases hfuel with h | h
           · rw [hi] at h; cases h
           · exact h
@@ -161,6 +162,6 @@ theorem initLoop_spec (c : Chart) (g : Cfg) (hg : g.initGuard = true)
           refine ⟨(by intro l r e; cases e), fun _ => ?_⟩
           cases fuel with
           | zero => omega
-          | succ f' => exact initLoop_bad c g hg f' tgt tp1 mx1 ⟨tgt', _⟩ c4 good
+          | succ f' => exact initLoop_bad c hf g hg f' tgt tp1 mx1 ⟨tgt', _⟩ c4 good
     · exact absurd hm3 (c1 m0 (by omega) hm2)
 end Miros.Hsm
